@@ -354,8 +354,8 @@ type ObjKind uint8
 const (
 	OStruct ObjKind = iota
 	OCell
-	OBytes // byte buffer: segment list
-	OElems // generic slice/array backing store of non-byte elements
+	OBytes  // byte buffer: segment list
+	OElems  // generic slice/array backing store of non-byte elements
 	OBuffer // bytes.Buffer
 	OReader // bytes.Reader / symbolic input stream
 	OMap
@@ -378,18 +378,18 @@ func (s Seg) String() string {
 
 // Obj is a memory object.
 type Obj struct {
-	ID     int
-	Kind   ObjKind
-	Name   string // access path for lazily materialised inputs ("frame", "v.asc")
-	Type   interface{}
-	Fields map[int]Value
-	Cell   Value
-	Segs   []Seg   // OBytes, OBuffer (content), OReader (remaining input)
-	Elems  []Value // OElems with constant length
-	ElemN  *Lin    // OElems length when symbolic
-	Lazy   bool    // fields/elements not yet read are symbolic atoms named by access path
+	ID      int
+	Kind    ObjKind
+	Name    string // access path for lazily materialised inputs ("frame", "v.asc")
+	Type    interface{}
+	Fields  map[int]Value
+	Cell    Value
+	Segs    []Seg   // OBytes, OBuffer (content), OReader (remaining input)
+	Elems   []Value // OElems with constant length
+	ElemN   *Lin    // OElems length when symbolic
+	Lazy    bool    // fields/elements not yet read are symbolic atoms named by access path
 	Escaped bool
-	Pos    *Lin // OReader: bytes consumed so far
+	Pos     *Lin // OReader: bytes consumed so far
 }
 
 func (o *Obj) String() string { return fmt.Sprintf("obj%d(%s)", o.ID, o.Name) }
